@@ -18,7 +18,11 @@ def scenario_tree():
             ["file", H("root/d/x"), H("x"), 0o644], ["symlink", H("root/d/s"), H("e")],
             # attacker props (inside the root, pointing out)
             ["symlink", H("root/evil_dir"), H("../outside/sub")], ["symlink", H("root/evil_file"), H("../outside/secret")],
-            ["symlink", H("root/evil_up"), H("../..")], ["dir", H("root/spare"), 0o755], ["file", H("root/spare/f"), H("spare"), 0o644]]
+            ["symlink", H("root/evil_up"), H("../..")], ["dir", H("root/spare"), 0o755], ["file", H("root/spare/f"), H("spare"), 0o644],
+            # twins: the same names inside the root (in a/) and in the place a walk lands when a/b has been moved out and '..' is
+            # taken from there (outside/) -- a lookup that loses track returns the host's twin
+            ["symlink", H("root/a/hlink"), H("b/f")], ["file", H("root/a/hfile"), H("inside-twin"), 0o644],
+            ["symlink", H("outside/hlink"), H("secret")], ["file", H("outside/hfile"), H("HOSTTWIN"), 0o644]]
 
 
 # attacker actions: (name, ops, reverse ops)
